@@ -3267,6 +3267,14 @@ def scalar_binop(name: str, a: Any, b: Any) -> Any:
         if name == "xor":
             return a ^ b
     x, y = _sym(a), _sym(b)
+    from . import values as _V
+
+    if _V.FLOAT_KIND[0] and all(isinstance(z, (int, sp.Integer, sp.Rational)) and not isinstance(z, bool) for z in (x, y)):
+        # number-kind mode: int / int and int ** negative int are floats in Python
+        if name == "div" and y != 0:
+            return sp.Float(sp.Rational(x) / sp.Rational(y), 30)
+        if name == "pow" and y < 0 and x != 0:
+            return sp.Float(sp.Pow(x, y), 30)
     if name == "add":
         return num(x + y)
     if name == "sub":
